@@ -138,6 +138,11 @@ func (v Value) LessCase(b Value, caseSensitive bool) bool {
 		return false
 	}
 	if v.kind == Number {
+		if v.num != v.num || b.num != b.num {
+			// NaN sorts before every other number (and equals only NaN):
+			// with "<" alone it would compare equal to all of them
+			return v.num != v.num && b.num == b.num
+		}
 		return v.num < b.num
 	}
 	if v.kind == String {
